@@ -8,6 +8,7 @@ from .isomsg import *
 from vsym.rope import Tok
 
 PROPERTY = 'C20'
+DEBUG_LOG = ['rows1/latin_1/1014']      # obligations that are also explored with debug logging switched on
 PYTHON_O = ['rows1/latin_1/1014', 'cli/entry-points']      # obligations that are also explored with the modules compiled as under python -O
 ASSUMPTIONS = [
     'the CSV layer is a row-level stub (DictReader yields the supplied row dicts, DictWriter records rows restricted to fieldnames): quoting of commas, '
@@ -93,9 +94,10 @@ def csv_roundtrip(nrows, enc, blocked, shapes=None, pdsmax=200):
         core.FUEL.set(40)
         install_dateutil_stub()
         m = M()
-        config = m.config.config
-        cfgs = config['bit_config']
-        cols_out = config['output_data_elements']
+        from . import packaged
+        config = m.config.config                       # the tools are handed the library's own configuration object, as the commands do
+        cfgs = packaged.bit_config()                   # expectations (cell kinds, column list) come from the frozen documented configuration
+        cols_out = packaged.output_columns()
         rows, expects, wit = [], [], []
         allcols = ['MTI']
         for i in range(nrows):
@@ -137,6 +139,12 @@ def csv_roundtrip(nrows, enc, blocked, shapes=None, pdsmax=200):
                 else:
                     require(g is not None and g != '', 'row %d column %s lost' % (i + 1, c), key='C20/value', replay=rp)
                     req_eq(g, v, 'row %d column %s changed' % (i + 1, c), key='C20/value', replay=rp)
+            # an empty cell means "absent": a column the row did not supply stays empty (carrier / derived columns are not input columns here)
+            for c in allcols:
+                if c not in exp:
+                    g = got.get(c)
+                    require(g is None or (not isinstance(g, (int, SInt)) and rlen(g) == 0), 'row %d: column %s was left empty but comes back with a value' % (i + 1, c),
+                            key='C20/value-appeared', replay=rp)
         return {'sample': {'cols': allcols, 'enc': enc, 'blocked': blocked, 'rows': nrows}, 'replay': rp()}
     return h
 
@@ -151,7 +159,8 @@ def cli_entry_points():
         core.FUEL.set(40)
         install_dateutil_stub()
         m = M()
-        cfgs = m.config.config['bit_config']
+        from . import packaged
+        cfgs = packaged.bit_config()
         in_enc = choose('csv_in_encoding', [None, 'latin_1', 'utf-16'])
         out_enc = choose('csv_out_encoding', [None, 'latin_1', 'cp1252', 'utf-16'])
         ipm_enc = choose('ipm_encoding', [None, 'cp500'])
@@ -198,7 +207,8 @@ def cli_long(ipm_enc, noblock):
         core.FUEL.set(60)
         install_dateutil_stub()
         m = M()
-        cfgs = m.config.config['bit_config']
+        from . import packaged
+        cfgs = packaged.bit_config()
         rows, exps, wits = [], [], []
         for i in range(3):
             row = {'MTI': '1240'}
@@ -245,6 +255,10 @@ def obligations(tier):
         for blocked in (True, False):
             obs.append(Ob('rows1/%s/%s' % (enc, '1014' if blocked else 'vbs'), csv_roundtrip(1, enc, blocked), 600,
                           'one row, any column shape in %s, all lengths/values' % SHAPES20, _funcs))
+    from . import packaged
+    each = [[c] for c in packaged.output_columns() if (c.startswith('DE') and c[2:].isdigit() and c != 'DE48') or c.startswith('PDS')]
+    obs.append(Ob('each-column/cp500/vbs', csv_roundtrip(1, 'cp500', False, shapes=each), 900,
+                  'one row with one column, for every data element / PDS column of the configured output list (%d columns), all lengths/values' % len(each), _funcs))
     obs.append(Ob('rows2/latin_1/1014', csv_roundtrip(2, 'latin_1', True, shapes=[SHAPES20[1], SHAPES20[3]] if q else None), 1800, 'two rows, any two shapes', _funcs))
     obs.append(Ob('rows2/cp500/vbs', csv_roundtrip(2, 'cp500', False, shapes=SHAPES20[2:] if q else None), 1800, 'two rows, any two shapes', _funcs))
     obs.append(Ob('rows1-long/latin_1/1014', csv_roundtrip(1, 'latin_1', True, shapes=[['DE2', 'PDS0023', 'PDS0052', 'PDS0148']], pdsmax=992), 1200,
